@@ -498,6 +498,8 @@ class LoggingEventHandler(FileSystemEventHandler):
 def generate_sub_moved_events(
     src_dir_path: bytes | str,
     dest_dir_path: bytes | str,
+    *,
+    follow_symlink: bool = False,
 ) -> Generator[DirMovedEvent | FileMovedEvent]:
     """Generates an event list of :class:`DirMovedEvent` and
     :class:`FileMovedEvent` objects for all the files and directories within
@@ -507,6 +509,9 @@ def generate_sub_moved_events(
         The source path of the moved directory.
     :param dest_dir_path:
         The destination path of the moved directory.
+    :param follow_symlink:
+        Whether the watch follows symbolic links (a link to a directory is then
+        reported as a directory, as the watch on it does).
     :returns:
         An iterable of file system events of type :class:`DirMovedEvent` and
         :class:`FileMovedEvent`.
@@ -517,7 +522,7 @@ def generate_sub_moved_events(
             renamed_path = src_dir_path + full_path[len(dest_dir_path) :] if src_dir_path else ""
             # os.walk() lists a symbolic link to a directory among the directories; it is
             # reported as a file everywhere else (the link itself is not a directory).
-            cls = FileMovedEvent if os.path.islink(full_path) else DirMovedEvent
+            cls = FileMovedEvent if not follow_symlink and os.path.islink(full_path) else DirMovedEvent
             yield cls(renamed_path, full_path, is_synthetic=True)
         for filename in filenames:
             full_path = os.path.join(root, filename)  # type: ignore[call-overload]
@@ -525,13 +530,19 @@ def generate_sub_moved_events(
             yield FileMovedEvent(renamed_path, full_path, is_synthetic=True)
 
 
-def generate_sub_created_events(src_dir_path: bytes | str) -> Generator[DirCreatedEvent | FileCreatedEvent]:
+def generate_sub_created_events(
+    src_dir_path: bytes | str,
+    *,
+    follow_symlink: bool = False,
+) -> Generator[DirCreatedEvent | FileCreatedEvent]:
     """Generates an event list of :class:`DirCreatedEvent` and
     :class:`FileCreatedEvent` objects for all the files and directories within
     the given moved directory that were moved along with the directory.
 
     :param src_dir_path:
         The source path of the created directory.
+    :param follow_symlink:
+        Whether the watch follows symbolic links (see :func:`generate_sub_moved_events`).
     :returns:
         An iterable of file system events of type :class:`DirCreatedEvent` and
         :class:`FileCreatedEvent`.
@@ -540,7 +551,7 @@ def generate_sub_created_events(src_dir_path: bytes | str) -> Generator[DirCreat
         for directory in directories:
             full_path = os.path.join(root, directory)  # type: ignore[call-overload]
             # A symbolic link to a directory is not a directory (see generate_sub_moved_events).
-            cls = FileCreatedEvent if os.path.islink(full_path) else DirCreatedEvent
+            cls = FileCreatedEvent if not follow_symlink and os.path.islink(full_path) else DirCreatedEvent
             yield cls(full_path, is_synthetic=True)
         for filename in filenames:
             full_path = os.path.join(root, filename)  # type: ignore[call-overload]
